@@ -43,10 +43,17 @@ const (
 	pRecommit          = 5 // base + a second Append/Commit round at the current height (Arbiters.History does this)
 	pAppendUnderSeek   = 6 // base + callers' capture-at-Append closures appended while a seek is outstanding
 	pAppendAfterTemp   = 7 // base + callers' capture-at-Append closures appended while temporary changes are visible
-	nProfiles          = 8
+	// base + RollbackTo under an outstanding SeekTo followed at once by a Commit,
+	// all changes absolute (set / map put / map delete): the transient state
+	// after the rollback is the recorded rollback-under-seek finding and is not
+	// looked at; the state after the commit must equal the model (the commit
+	// re-executes the seeked-away heights that survived the rollback). The
+	// History is replaced afterwards (its undo records are not to be trusted).
+	pRollbackUnderSeekCommit = 8
+	nProfiles                = 9
 )
 
-var profileName = [...]string{"base", "rollback-under-seek", "same-var-append-capture", "same-var-exec-capture", "height-gaps", "recommit-height", "append-capture-under-seek", "append-capture-after-temp"}
+var profileName = [...]string{"base", "rollback-under-seek", "same-var-append-capture", "same-var-exec-capture", "height-gaps", "recommit-height", "append-capture-under-seek", "append-capture-after-temp", "rollback-under-seek-then-commit"}
 
 // Chg is one change: (execute, rollback) pair.
 type Chg struct {
@@ -65,7 +72,7 @@ type Step struct {
 
 func (Engine) Generate(r *core.Rng, property, tier string) *core.Plan {
 	p := &core.Plan{Knobs: map[string]int64{}}
-	prof := r.Pick(30, 8, 12, 10, 8, 8, 8, 8)
+	prof := r.Pick(30, 8, 12, 10, 8, 8, 8, 8, 8)
 	p.SetKnob("profile", int64(prof))
 	p.SetKnob("cap", int64(r.Range(2, 8)))
 	p.SetKnob("start", int64(1+r.Intn(3))*int64(r.Pick(1, 1)*999+1)) // first height 1..3 or 1000..3000
@@ -249,6 +256,7 @@ type run struct {
 	ret   int               // heights History can be asked to keep: +1 per new height up to the capacity, minus what a rollback removed
 	// afterRollback: a RollbackTo removed heights and no Commit happened since
 	afterRollback bool
+	pendingCommit bool   // rollback-under-seek-then-commit: a rollback under a seek happened, the next operation is a commit
 	opctx         string // operation context of the History call in flight (signature part)
 	taint         string // base profile: first contract-edge context exercised on this History instance
 	stop          bool
@@ -313,6 +321,7 @@ func (r *run) reset() {
 	r.snaps = map[uint32]*state{}
 	r.changesAt = map[uint32][]Chg{}
 	r.hs, r.top, r.seek, r.temp, r.ret, r.afterRollback, r.stop, r.taint = nil, 0, 0, nil, 0, false, false, ""
+	r.pendingCommit = false
 }
 
 func (r *run) describe() string {
@@ -501,6 +510,10 @@ func (r *run) target(d, off int) uint32 {
 
 func (r *run) step(s *Step) {
 	c := r.c
+	if r.pendingCommit && s.Op != "commit" {
+		c.Logf("%s skipped (a commit follows the rollback under a seek)", s.Op)
+		return
+	}
 	switch s.Op {
 	case "commit", "recommit":
 		height := r.top + 1
@@ -532,7 +545,19 @@ func (r *run) step(s *Step) {
 		if re {
 			existing = r.changesAt[height]
 		}
-		chgs := r.filter(existing, s.Chg)
+		wanted := s.Chg
+		if r.prof == pRollbackUnderSeekCommit {
+			// absolute changes only: relative ones (add / subtract) are not
+			// idempotent under the double undo of the recorded finding
+			wanted = make([]Chg, len(s.Chg))
+			for i, ch := range s.Chg {
+				if ch.Kind == "add" || ch.Kind == "subset" {
+					ch.Kind = "set"
+				}
+				wanted[i] = ch
+			}
+		}
+		chgs := r.filter(existing, wanted)
 		hadTemp := len(r.temp) > 0
 		if hadTemp && len(chgs) > 0 && r.captureAtAppend() && r.prof != pAppendAfterTemp {
 			// a careful caller does not read state under visible temporary
@@ -591,6 +616,14 @@ func (r *run) step(s *Step) {
 		r.afterRollback = false
 		c.Logf("%s %d n=%d", r.opctx, height, len(chgs))
 		r.check()
+		if r.pendingCommit {
+			r.pendingCommit = false
+			c.Probe("commit-after-rollback-under-seek-checked")
+			if !r.stop {
+				c.Logf("fresh History after rollback-under-seek + commit")
+				r.reset()
+			}
+		}
 	case "temp":
 		if r.top == 0 || len(r.temp) > 0 || r.seek != r.top {
 			c.Logf("temp skipped")
@@ -795,9 +828,10 @@ func (r *run) step(s *Step) {
 		} else {
 			r.opctx = "rollback"
 			if r.seek != r.top {
-				if r.prof == pRollbackUnderSeek {
+				if r.prof == pRollbackUnderSeek || r.prof == pRollbackUnderSeekCommit {
 					c.Fault("rollback-under-outstanding-seek")
 					r.opctx = "rollback-under-outstanding-seek"
+					r.pendingCommit = r.prof == pRollbackUnderSeekCommit
 				} else if !r.seekToTip("rollback") {
 					return
 				}
@@ -838,6 +872,10 @@ func (r *run) step(s *Step) {
 		}
 		r.seek = r.top
 		c.Logf("%s %d (d=%d)", r.opctx, target, d)
+		if r.pendingCommit {
+			// the transient state is the recorded finding; judged after the commit
+			return
+		}
 		r.check()
 	default:
 		panic("unknown op " + s.Op)
